@@ -181,6 +181,43 @@ def rule_orient(ctx, rep):
             r.finding(name + "|" + o, loc_str(b.f, c.loc), "edge is oriented %s while other sites use %s: a cycle that passes through both kinds of edge is not a graph cycle" % (o, ref))
 
 
+def external_not_descended(ctx):
+    """where (file:line) the graph builder's own visit_var_decl leaves a VAR_EXTERNAL declaration without visiting what is below it: on the
+    edge on which `node.var_type` is known to be External (an `==` with the constant External that holds, or the External arm of a match on
+    it) no call is reachable before the return.  None when there is no such override or the External edge descends."""
+    bs = [b for b in ctx.prog.bodies.values() if (b.f.get("impl") or {}).get("self") == VIS and b.f["name"] == "visit_var_decl"]
+    if not bs:
+        return None
+    b = bs[0]
+
+    def is_var_type(place):
+        fs = [x for x in b.root(place)[1] if isinstance(x, list) and x[0] == "f"]
+        return bool(fs) and fs[-1][2] == "var_type" and b.root(place)[0] == 2
+
+    def quiet(start, others):
+        region = b.reachable(start, avoid=set(others))
+        return not any(c.bb in region for c in b.calls())
+    for i in sorted(b.reachable(0)):
+        si = switch_info(b, i)
+        if not si:
+            continue
+        if si["kind"] == "disc" and si["subject"][0] == "place" and is_var_type(list(si["subject"][1])) and (si.get("adt") or "").endswith("VariableType"):
+            for succ, labs in si["edges"].items():
+                if labs == ["External"] and quiet(succ, [s_ for s_ in si["edges"] if s_ != succ]):
+                    return "%s:%d" % (b.f["file"], b.f["line"])
+        if si["kind"] == "bool" and si["subject"][0] == "call" and (si["subject"][1].callee or "").endswith("VariableType as core::cmp::PartialEq>::eq"):
+            c = si["subject"][1]
+            ops = [op_place(a) for a in c.args]
+            consts = [b.const_of(a) for a in c.args]
+            has_ext = any(k is not None and len(k) > 3 and isinstance(k[3], dict) and k[3].get("variant") == "External" for k in consts)
+            has_vt = any(p is not None and is_var_type(p) for p in ops)
+            if has_ext and has_vt:
+                for succ, labs in si["edges"].items():
+                    if labs == [True] and quiet(succ, [s_ for s_ in si["edges"] if s_ != succ]):
+                        return "%s:%d" % (b.f["file"], b.f["line"])
+    return None
+
+
 def rule_edges(ctx, rep):
     r = rep.rule("R-C07-edges", "every initialiser kind through which a structure element / variable can refer to another declaration contributes an "
                                 "edge in visit_initial_value_assignment_kind (or is listed as unable to close a cycle)", floor=10, floor_what="InitialValueAssignmentKind variants")
@@ -224,13 +261,17 @@ def rule_edges(ctx, rep):
                         subcode.append(" ".join(t.v for t in s2.action.code))
                 for k in re.findall(r"InitialValueAssignmentKind\s*::\s*(\w+)", " ".join(subcode)):
                     ref_kinds[k] = "%s (via %s)" % (rule.name, sub.name)
+    ext_cut = external_not_descended(ctx)
     for v in adt["variants"]:
         name = v["name"]
         succ = arm_of.get(name, arm_of.get("otherwise"))
         if name in ref_kinds and succ is not None:
             region0 = b.reachable(succ, avoid=other_arms - {succ})
             inst0 = "InitialValueAssignmentKind::%s|reference kind" % name
-            if region0 & edge_bbs and len([l for l, s_ in arm_of.items() if s_ == succ]) == 1:
+            if ext_cut is not None:
+                r.ok(inst0, ext_cut, "used for VAR_EXTERNAL references (%s); the builder's visit_var_decl returns for VariableType::External without descending, so the "
+                                     "initialiser of a reference is never visited" % ref_kinds[name])
+            elif region0 & edge_bbs and len([l for l, s_ in arm_of.items() if s_ == succ]) == 1:
                 r.finding(inst0 + "|adds-edge", "%s:%d" % (b.f["file"], b.f["line"]), "the grammar builds VAR_EXTERNAL declarations with this kind (%s); an edge for it turns a reference "
                           "into containment: an acyclic unit whose inner block refers back to an outer one through VAR_EXTERNAL is reported as recursive" % ref_kinds[name])
             else:
